@@ -287,6 +287,9 @@ P09(def, obs, top, mobs) ==
         /\ (mobs.outcome = "Ok" /\ Len(obs.chain) = Len(mobs.chain) => \A i \in 2..Len(obs.chain) : CliPart(obs)[i] = CliPart(mobs)[i])
   \* ... and a line that a subcommand level's own definition rejects is not accepted on that level's behalf
   /\ (obs.outcome = "Ok" /\ ~def.s.ignore_errors /\ top.err /\ ~top.panic) => FailDepth(Build(def, NoInherit), top) < 2
+  \* ... and a line on which the grammar finds a chain of subcommands is not turned down as naming something unknown
+  /\ ~(/\ obs.outcome = "Err" /\ obs.kind \in {"UnknownArgument", "InvalidSubcommand"} /\ ~def.s.ignore_errors
+       /\ mobs.outcome = "Ok" /\ Len(mobs.chain) >= 2)
 
 \* ---- C10: rejections justified and classified ---------------------------------------------------
 KindContract(obs) ==
